@@ -116,6 +116,10 @@ impl ReplicationFetcher {
         // Remove any outdated entries in `to_be_fetched`
         self.remove_stored_keys(locally_stored_keys);
 
+        // A fetch that has timed out is not in flight any more: it must not keep the fresh replicate of
+        // the same record below from being fetched
+        self.prune_expired_keys_and_slow_nodes();
+
         // Special case for single new key: a fresh replicate of one record. A periodic (multi-record)
         // advertisement that merely filters down to one new key goes through the range check
         // and the parallel fetch limit like any other.
